@@ -98,10 +98,12 @@ def swarm_knobs(rng):
     return kn
 
 
-def gen_program_spec(seed, pool, slot):
+def gen_program_spec(seed, pool, slot, twins=False):
     prng = R.run_rng(seed, "program", slot % pool)
     kn = swarm_knobs(prng)
     spec = P.gen_spec(prng, kn, pkg="simpkg")
+    if twins:
+        P.add_twin_module(spec, prng)
     spec["pkg"] = "simpkg_" + R.digest(spec)[:10]
     return spec, kn
 
@@ -111,7 +113,7 @@ def gen(rng, index, tier, prop_id=ID):
     # the program is one of `pool` seeded programs (compiled programs are cached per worker);
     # knobs that shape the schedule are drawn per run
     seed0 = rng.getrandbits(32)
-    spec, pkn = gen_program_spec(int(os.environ.get("VERIF_SEED", "1") or 1), pool, index)
+    spec, pkn = gen_program_spec(int(os.environ.get("VERIF_SEED", "1") or 1), pool, index, twins=(prop_id == "C02" and (index % pool) % 12 == 5))
     kn = swarm_knobs(rng)
     for key in ("generators", "coroutines", "classes", "nested_classes"):
         kn[key] = pkn[key]
